@@ -186,6 +186,12 @@ def take(v, n=None):
     """the next n (default: all remaining) items of a ListV; an iterator loses them"""
     if getattr(v, 'tainted', False):
         raise Unsupported('an iterator whose position is not known (it was partly consumed through a generator)')
+    srcs = getattr(v, 'sources', None)
+    if srcs and any(s_.attrs.get('__closed__') for s_ in srcs) and (v.items or not getattr(v, 'touched', False)):
+        # a generator over a file runs when it is consumed: by then the file is closed
+        raise _RaisedExc(Raised('ValueError'))              # I/O operation on closed file
+    if is_iter(v):
+        v.touched = True
     items = list(v.items) if n is None else list(v.items[:n])
     if is_iter(v):
         del v.items[:len(items)]
@@ -1288,12 +1294,28 @@ class Interp:
             raise _RaisedExc(Raised('TypeError', n))                # not all arguments converted
         return self.plain(out)
 
+    def text_key(self, d, key, node=None):
+        """normal form of a key for a look-up. A symbolic text is compared with every literal text key the way == compares
+        them: a key of the same width as the text is a hazard (the outcome depends on the text), recorded as for ==;
+        the answer is then "another text" """
+        nk = d.nkey(key)
+        if nk in d.d:
+            return nk
+        if isinstance(key, SegStr) or (isinstance(key, str) and key in self.sym_strings):
+            for k_ in list(d.d):
+                ok_ = d.okey(k_)
+                if isinstance(ok_, str) and ok_ not in self.sym_strings and self.compare('==', key, ok_, node):
+                    return k_
+        return nk
+
     def is_integral(self, v):
         """a number known to be whole: integer coefficients over the symbols declared whole"""
         return v.integer_coefficients() and all(a in self.int_syms for a in v.atoms())
 
     def format_piece(self, v, spec):
         """abstract text of one replacement field (str.format and f-strings)"""
+        if isinstance(v, Obj) and '__format__' in v.opaque_methods:
+            return to_segstr(v.opaque_methods['__format__'](self, v, [spec or ''], {}))     # format(obj, spec)
         if True:
             out = SegStr()
             if isinstance(v, (str, SegStr)) and spec:
@@ -1676,7 +1698,8 @@ class Interp:
                     # a literal against user text of the same width: outcome depends on the text
                     lit, sym = (sa, sb) if sa.is_literal() else (sb, sa)
                     blank = lit.is_literal() and (lit.literal() == '' or any(ch.isspace() for ch in lit.literal()))
-                    if lit.is_literal() and not blank and any(f.cls == 'text' for f in sym.fields()):
+                    if lit.is_literal() and not blank and (any(f.cls == 'text' for f in sym.fields()) or (
+                            lit.literal().isalpha() and any(f.cls == 'alpha' for f in sym.fields()))):
                         self.hazards.append((node, 'comparison with %r depends on user-controlled text %r'
                                              % (lit.literal(), sym)))
                     res = False
@@ -1684,7 +1707,7 @@ class Interp:
             if op in ('in', 'not in') and isinstance(b, (ListV, DictV)):
                 pa = self.plain(a)
                 items = b.items if isinstance(b, ListV) else [b.okey(k_) for k_ in b.d]
-                if isinstance(pa, str):
+                if isinstance(pa, str) and pa not in self.sym_strings:
                     res = any(isinstance(self.plain(x), str) and self.plain(x) == pa for x in items)
                     return res if op == 'in' else not res
                 # a composite abstract string against each candidate (same rules as ==)
@@ -2071,7 +2094,13 @@ class Frame:
                     if not exc_matches(r_.raised.exc, suppress):
                         raise
                 return
-            self.exec_block(st.body)
+            files_ = [x_ for x_ in (self.ev(i_.optional_vars) if isinstance(i_.optional_vars, ast.Name) else None
+                                    for i_ in st.items) if isinstance(x_, Obj) and '__mode__' in x_.attrs]
+            try:
+                self.exec_block(st.body)
+            finally:
+                for f_ in files_:
+                    f_.attrs['__closed__'] = True           # leaving the block closes the file, however it is left
             return
         if isinstance(st, ast.Assert):
             # an assertion that fails raises; one that cannot be decided ends the analysis (I.truth)
@@ -2363,6 +2392,10 @@ class Frame:
             if st.orelse:
                 raise Unsupported('for-else over a vector', st, self.module.relpath)
             return
+        if isinstance(it, Obj) and '__lines__' in it.attrs:
+            if it.attrs.get('__closed__'):
+                raise _RaisedExc(Raised('ValueError', st))          # I/O operation on closed file
+            it = it.attrs['__lines__']          # the lines not yet handed out; a break leaves the rest in the file
         lazy = is_iter(it)
         sized = it.d if isinstance(it, DictV) else it.items if isinstance(it, ListV) and getattr(it, 'is_set', False) \
             else None
@@ -2421,7 +2454,9 @@ class Frame:
         if isinstance(it, str):
             return list(it)
         if isinstance(it, Obj) and '__lines__' in it.attrs:
-            return list(it.attrs['__lines__'].items)
+            if it.attrs.get('__closed__'):
+                raise _RaisedExc(Raised('ValueError', node))        # I/O operation on closed file
+            return take(it.attrs['__lines__'])
         if isinstance(it, Obj) and '__fields__' in it.attrs:
             return [it.attrs[f_] for f_ in it.attrs['__fields__'].items]        # a named tuple is a tuple
         if it is None or isinstance(it, (bool, Rat)):
@@ -2852,10 +2887,15 @@ class Frame:
             return self.listcomp(n)
         if isinstance(n, ast.GeneratorExp):
             src_ = self.ev(n.generators[0].iter) if isinstance(n.generators[0].iter, ast.Name) else None
+            file_ = src_ if isinstance(src_, Obj) and '__lines__' in src_.attrs else None
+            if file_ is not None:
+                src_ = file_.attrs['__lines__']
             over_iter = is_iter(src_)
             g_ = self.listcomp(n)
             if isinstance(g_, ListV):
                 g_.is_generator = True      # may be consumed by next()
+                if file_ is not None:
+                    g_.sources = [file_]    # the body runs when the generator is consumed: the file must be open then
                 # evaluated eagerly here: when it runs over another one-shot iterator that one is drained now, which is
                 # only right if this generator is itself consumed to the end
                 g_.drains_other = src_ if over_iter else None
@@ -2921,7 +2961,8 @@ class Frame:
                     spec = sv
                 if part.conversion in (115, 114):       # !s / !r
                     v = builtin_call(I, self, 'str', [v], {}, n)
-                if isinstance(v, DictV) or isinstance(v, (Obj, ClassInfo)):
+                if isinstance(v, DictV) or (isinstance(v, (Obj, ClassInfo)) and not (
+                        isinstance(v, Obj) and '__format__' in v.opaque_methods)):
                     v = builtin_call(I, self, 'str', [v], {}, n)
                 try:
                     out = out + I.format_piece(v, spec)
@@ -3133,7 +3174,7 @@ class Frame:
         if isinstance(base, ListV):
             return base.items[self.index(idx, len(base), n)]
         if isinstance(base, DictV):
-            k = base.nkey(idx)
+            k = self.I.text_key(base, idx, n)
             if k in base.d:
                 return base.d[k]
             if isinstance(base, CounterV):
@@ -3463,6 +3504,10 @@ class Frame:
         if attr == '__class__':
             return obj.ci
         if obj.closed:
+            if getattr(obj, 'refuse_unknown', False):
+                # a stand-in for a library object: a member without a model is outside the fragment, never an
+                # AttributeError the program would not see
+                raise Unsupported('member %r of %s (no model)' % (attr, obj.name), node, self.module.relpath)
             if '__mode__' in obj.attrs and attr in FILE_METHODS:
                 # a method every text file has, without a model here: not an AttributeError Python would raise
                 raise Unsupported('method %r of a file object' % attr, node, self.module.relpath)
@@ -3930,6 +3975,18 @@ def drain(args):
     return [ListV(take(a)) if is_iter(a) else a for a in args]
 
 
+def _literal_number(txt):
+    """the number a text denotes for float() / int(): an optional sign, then what a source literal may be"""
+    t_ = txt.strip()
+    neg = t_.startswith('-')
+    if t_[:1] in '+-':
+        t_ = t_[1:]
+        if t_[:1] in '+-' or not t_:
+            raise Unsupported('not a number')
+    v_ = token_num(t_).v
+    return -v_ if neg else v_
+
+
 def builtin_call(I, fr, name, args, kwargs, n):
     if name not in LAZY_BUILTINS and any(is_iter(a) for a in args):
         args = drain(args)
@@ -3946,7 +4003,7 @@ def builtin_call(I, fr, name, args, kwargs, n):
             if name == 'int' and not re.fullmatch(r'[+-]?\d+(?:_\d+)*', txt_):
                 raise _RaisedExc(Raised('ValueError', n))      # int('1.5'), int('1e3'): not an integer literal
             try:
-                return C(token_num(sv.literal()).v)
+                return C(_literal_number(sv.literal()))
             except Unsupported:
                 raise _RaisedExc(Raised('ValueError', n))
         if f is None and sv.fields():
@@ -3961,7 +4018,7 @@ def builtin_call(I, fr, name, args, kwargs, n):
         if name == 'int' and not re.fullmatch(r'[+-]?\d+(?:_\d+)*', args[0].strip()):
             raise _RaisedExc(Raised('ValueError', n))      # int('1.5'), int('1e3'): not an integer literal
         try:
-            return C(token_num(args[0].strip()).v)
+            return C(_literal_number(args[0]))
         except Unsupported:
             raise _RaisedExc(Raised('ValueError', n))
     if name == 'locals':
@@ -3986,6 +4043,12 @@ def builtin_call(I, fr, name, args, kwargs, n):
         v = args[0]
         if isinstance(v, Rat) and (v.is_const() or v.iszero()) and len(args) == 1:
             return C(round(v.const_value() if not v.iszero() else 0))
+        if isinstance(v, Rat) and (v.is_const() or v.iszero()) and len(args) == 2 and isinstance(args[1], Rat) and \
+                (args[1].iszero() or (args[1].is_const() and args[1].const_value().denominator == 1)):
+            # round(x, n) of a concrete number: the float nearest to x, rounded as Python rounds it
+            nd_ = 0 if args[1].iszero() else int(args[1].const_value())
+            xv_ = float(v.const_value()) if not v.iszero() else 0.0
+            return C(Fr(repr(round(xv_, nd_)))) if abs(xv_) < 1e15 else v
         raise Unsupported('round() of a symbolic value', n)
     if name == 'iter' and len(args) == 1 and (args[0] is None or isinstance(args[0], (Rat, SumV, bool))):
         raise _RaisedExc(Raised('TypeError', n))        # a number is not iterable
@@ -4004,9 +4067,12 @@ def builtin_call(I, fr, name, args, kwargs, n):
         return args[0]              # iterators are their own iterators
     if name == 'open':
         fname = args[0] if args else kwargs.get('file')
+        if isinstance(fname, Obj) and '__fspath__' in fname.attrs:
+            fname = fname.attrs['__fspath__']       # a pathlib.Path names the file
         mode = args[1] if len(args) > 1 else kwargs.get('mode', 'r')
         fo = Obj('file:%s' % (fname,), closed=True)
         fo.attrs['__lines__'] = ListV(list(I.files.get(fname, []))) if 'r' in mode else ListV([])
+        fo.attrs['__lines__'].is_iterator = True        # a text file is its own iterator: a line handed out is gone
         fo.attrs['__name__'] = fname
         fo.attrs['__mode__'] = mode
 
@@ -4027,7 +4093,13 @@ def builtin_call(I, fr, name, args, kwargs, n):
             return None
         fo.opaque_methods['write'] = write
         fo.opaque_methods['writelines'] = writelines
-        fo.opaque_methods['close'] = lambda I_, o, a, k: None
+        fo.opaque_methods['close'] = lambda I_, o, a, k: o.attrs.__setitem__('__closed__', True)
+
+        def readlines(I_, o, a, k, fr=fr, n=n):
+            if a or k:
+                raise Unsupported('readlines() with a size hint', n)
+            return ListV(list(fr.iter_items(o, n)))
+        fo.opaque_methods['readlines'] = readlines
         if 'w' in mode:
             I.files[fname] = []
         return fo
@@ -4314,6 +4386,10 @@ def builtin_call(I, fr, name, args, kwargs, n):
         return it_
     if name == 'next' and args:
         it_ = args[0]
+        if isinstance(it_, Obj) and '__lines__' in it_.attrs:
+            if it_.attrs.get('__closed__'):
+                raise _RaisedExc(Raised('ValueError', n))
+            it_ = it_.attrs['__lines__']
         if isinstance(it_, ListV) and (getattr(it_, 'is_iterator', False) or getattr(it_, 'is_generator', False)):
             if getattr(it_, 'drains_other', None) is not None and len(it_.items) > 1:
                 it_.drains_other.tainted = True
@@ -4763,7 +4839,7 @@ def bound_native(I, fr, bn, args, kwargs, n):
         if name == 'copy':
             return DictV(dict(b.d))
         if name == 'get':
-            k = b.nkey(args[0])
+            k = I.text_key(b, args[0], n)
             return b.d.get(k, args[1] if len(args) > 1 else None)
         if name == 'items':
             prs_ = []
@@ -5537,6 +5613,31 @@ def _inspect_signature(I, fr, args, kwargs, n):
         po = Obj('parameter:' + name, attrs=dict({'name': name, 'kind': PARAM_KINDS[kind]}, **PARAM_KINDS), closed=True)
         ps.d[name] = po
     return Obj('signature', attrs={'parameters': ps}, closed=True)
+
+
+def _pathlib_path(I, fr, args, kwargs, n):
+    """pathlib.Path(name): modelled as far as naming a file goes - open(), str(), os.fspath, .name of a plain name"""
+    if len(args) != 1 or kwargs:
+        raise Unsupported('pathlib.Path of several parts', n)
+    nm = args[0]
+    if isinstance(nm, Obj) and '__fspath__' in nm.attrs:
+        return nm
+    if not isinstance(nm, (str, SegStr)):
+        raise Unsupported('pathlib.Path(%r)' % (nm,), n)
+    o = Obj('path:%s' % (nm,), closed=True)
+    o.refuse_unknown = True
+    o.isa.update({'Path', 'PurePath', 'PathLike'})
+    o.attrs['__fspath__'] = nm
+
+    def p_open(I_, ob, a, k):
+        return builtin_call(I_, fr, 'open', [nm] + list(a), dict(k), n)
+    o.opaque_methods['open'] = p_open
+    o.opaque_methods['__str__'] = lambda I_, ob, a, k: nm
+    o.opaque_methods['__fspath__'] = lambda I_, ob, a, k: nm
+    o.opaque_methods['__format__'] = lambda I_, ob, a, k: I_.format_piece(nm, a[0] if a else '')
+    if isinstance(nm, str) and nm not in I.sym_strings and '/' not in nm and '\\' not in nm:
+        o.attrs['name'] = nm
+    return o
 
 
 def _getfullargspec(I, fr, args, kwargs, n):
@@ -6828,6 +6929,8 @@ NATIVE = {
     'numpy.mean': _np_mean,
     'numpy.isclose': _np_isclose,
     'collections.namedtuple': _namedtuple,
+    'pathlib.Path': _pathlib_path, 'os.fspath': lambda I, fr, args, kwargs, n: (
+        args[0].attrs['__fspath__'] if isinstance(args[0], Obj) and '__fspath__' in args[0].attrs else args[0]),
     'inspect.getfullargspec': _getfullargspec, 'dataclasses.replace': _dataclass_replace, 'numpy.repeat': _np_repeat,
     'itertools.repeat': _itertools_repeat,
     'numpy.argmin': _arg_extremum('min'),
